@@ -73,6 +73,11 @@ def _scene(d, kind):
     if kind == 'cbmm':
         iterations = d.choice([1, 2, 3])
     rng = d.rng()
+    if d.epoch >= 3 and K >= 3 and d.aux(37).integers(0, 5) < 2:
+        # "any blur ... that keeps the true class the largest": for K classes
+        # that is any beta below (K-1)/K; the reference-EM cross-check decides
+        # whether a failure at such a blur is EM's or the library's
+        beta = float(d.aux(38).uniform(0.45, 0.97 * (K - 1) / K))
     # "perturbation level <= 1e-2": also far smaller levels and none at all
     # (observations numerically collinear with their prototype: rank-one class
     # scatter, null eigenvalues at rounding level) for the models that do not
